@@ -364,6 +364,32 @@ theorem relative_roundtrip_rootless (oka : Grammar.OkAuth G) (we : Grammar.OkWE 
   rw [hAn, List.map_append, List.map_append, hcab]
 
 
+
+/-- **the shortcut between two rootless paths** (`s:a/b#f` relative to `s:a/./b` is `#f`) -/
+theorem relative_roundtrip_samedoc_rootless (oka : Grammar.OkAuth G) (we : Grammar.OkWE G) (a b : Text)
+    (ha : Matches G.full a) (hb : Matches G.full b)
+    (hsch : (split a).scheme = (split b).scheme)
+    (haa : (split a).authority = none) (hab : (split b).authority = none)
+    (hpa : isAbs (split a).path = false) (hpb : isAbs (split b).path = false)
+    (hhA : ((nsegs (split a).path).head? == some [cDot, cDot]) = false)
+    (hhB : ((nsegs (Path.parent_or_empty (split b).path)).head? == some [cDot, cDot]) = false)
+    (hne : nsegs (split a).path ≠ [])
+    (hcls : (!(remainder a b).2.2 && (remainder a b).1.head? == some []) = false)
+    (hsd : sdCond a b = true) :
+    ∃ r t, Ref.relative_to a b = some r ∧ Ref.resolve r b = some t ∧ key t = key a := by
+  have habs0 : (Path.is_absolute (split a).path !=
+      (Path.is_absolute (split b).path || ((split b).authority.isSome && Path.is_empty (split b).path))) = false := by
+    rw [is_absolute_eq, is_absolute_eq, hpa, hpb, hab]; rfl
+  have hdfA : DotFree (nsegs (split a).path) := by
+    apply semiNormal_head _ hhA
+    unfold nsegs; rw [hpa]; exact semiNormal_nsegsOf _
+  have he0 : nsegs (Path.parent_or_empty (split b).path) = nsegsOf false (segs (split b).path).dropLast := by
+    obtain ⟨h1, h2, _⟩ := parent_segs_rel (split b).path hpb
+    unfold nsegs
+    rw [h2, h1]
+  exact relative_roundtrip_samedoc_core G ok okp oka we a b ha hb hsch (by rw [haa, hab]) habs0 hhA hhB hdfA
+    (fun _ => by rw [hpa, hpb]) (fun _ => by rw [hpb]; exact he0) hne hcls hsd
+
 end
 
 end IrefVerif.Lemmas
